@@ -91,7 +91,7 @@ def dep5_case(draw):
     for k in range(nparas):
         pats = []
         for _ in range(draw(st.integers(1, 3))):
-            pat = "".join(draw(st.lists(st.sampled_from(ATOMS), min_size=1, max_size=6)))
+            pat = draw(st.one_of(st.lists(st.sampled_from(ATOMS), min_size=1, max_size=6).map("".join), st.sampled_from(["*", "a/*", "a*", "*b", "a/b/*", "*.b"])))
             if pattern_ok(pat) and not pat.startswith("/"):
                 pats.append(pat)
         if not pats:
@@ -100,7 +100,12 @@ def dep5_case(draw):
             paths |= draw(witness_paths(pat))
         cop = [f"20{10 + k} Holder {k}"] + draw(st.lists(st.sampled_from(["2001 Second Line", "Copyright (C) 1999 Third, Inc.", "© Fourth <f@example.org>"]), max_size=2, unique=True))
         lic = draw(st.sampled_from(["MIT", "GPL-3.0-or-later", "Apache-2.0 OR MIT", f"LicenseRef-p{k}", "GPL-2.0-only WITH Classpath-exception-2.0"]))
-        paras.append({"files": pats, "cop": cop, "lic": lic, "body": draw(st.booleans()), "comment": draw(st.sampled_from([None, None, "A comment.", "Two\n lines"]))})
+        para = {"files": pats, "cop": cop, "lic": lic, "body": draw(st.booleans()), "comment": draw(st.sampled_from([None, None, "A comment.", "Two\n lines"]))}
+        if k >= 2 and draw(st.integers(0, 2)) == 0:
+            # a non-adjacent twin: exactly the same information as an earlier paragraph (only the order of paragraphs tells them apart)
+            twin = paras[draw(st.integers(0, k - 2))]
+            para = dict(para, cop=twin["cop"], lic=twin["lic"], body=twin["body"], comment=twin["comment"])
+        paras.append(para)
     header = {"name": draw(st.sampled_from([None, "proj"])), "contacts": draw(st.lists(st.sampled_from(["Jane <j@example.org>", "https://example.org/contact"]), max_size=2, unique=True)),
               "source": draw(st.sampled_from([None, "https://example.org/src"])), "disclaimer": draw(st.sampled_from([None, "Not official."])),
               "comment": draw(st.sampled_from([None, "Header comment."]))}
